@@ -1113,7 +1113,27 @@ def value_method(it, base, attr, node):
             return bb(f)
         if attr == "copy":
             return bb(lambda: base)
-        if attr == "index" or attr == "remove" or attr == "insert" or attr == "sort":
+        if attr == "remove":
+            def f(x):
+                x = it.coerce(x, so.elem)
+                n = base.terms[0]
+                if not it.spec and it.branch(z3.Not(contains(it, base, x))):
+                    raise PyRaise(ExcObj("ValueError", ()))
+                # removes the FIRST occurrence: k is its index
+                k = z3.Int(S.fresh_name("rmk"))
+                j = z3.Int(S.fresh_name("rmj"))
+                it.st.assume(z3.And(k >= 0, k < n, so.elem.eq(so.at(base, k), x)))
+                it.st.assume(z3.ForAll([j], z3.Implies(z3.And(j >= 0, j < k), z3.Not(so.elem.eq(so.at(base, j), x)))))
+                res = list_from_lambda(it, so.elem, n - 1, lambda i: so.elem.ite(i < k, so.at(base, i), so.at(base, i + 1)))
+                # spelled-out consequence (helps the solver find witnesses): every other position survives, shifted by at most one
+                newidx = z3.Function(S.fresh_name("rm_newidx"), z3.IntSort(), z3.IntSort())
+                it.st.assume(z3.ForAll([j], z3.Implies(z3.And(j >= 0, j < n, j != k), z3.And(
+                    newidx(j) == z3.If(j < k, j, j - 1), newidx(j) >= 0, newidx(j) < n - 1,
+                    so.elem.eq(so.at(res, newidx(j)), so.at(base, j))))))
+                writeback(res)
+                return NONE
+            return bb(f)
+        if attr == "index" or attr == "insert" or attr == "sort":
             raise OutOfSubset(f"list.{attr}")
     if isinstance(so, S.TSet):
         if attr == "add":
